@@ -588,9 +588,11 @@ def run_property(prop: str, tier: str, seed: int, jobs: int = 0, only: Optional[
         'wall_s': round(wall, 2),
         'violations': len(violations),
     }
-    os.makedirs(os.path.join(VERIF, 'evidence'), exist_ok=True)
+    # runs against a scratch tree (PYBC_REPO: seeded changes, mutants) must not overwrite the evidence of /repo itself
+    evdir = os.environ.get('VERIF_EVIDENCE_DIR') or os.path.join(VERIF, 'evidence')
+    os.makedirs(evdir, exist_ok=True)
     if not only:
-        with open(os.path.join(VERIF, 'evidence', f'{prop}.json'), 'w') as f:
+        with open(os.path.join(evdir, f'{prop}.json'), 'w') as f:
             json.dump(evidence, f, indent=1, default=str)
 
     for ln in known_lines.values():
